@@ -3,15 +3,27 @@ package c19
 import (
 	"fmt"
 	"math/rand/v2"
+	"sort"
 	"strconv"
+	"strings"
 )
 
 // invalidClass is one class of set-ups that "cannot work or would be unsafe"
 // named by the property statement. apply turns an otherwise valid set into a
-// member of the class and returns the variant name (part of the finding key).
+// member of the class.
+//
+// The variant space of every class is small and finite and is ENUMERATED, not
+// sampled: apply(…, i) builds variant number i%Variants. It returns the variant
+// name that goes into the finding key (the input class: which spelling / which
+// pair of back ends / which shape) and a sub-variant that only goes into the
+// evidence counters (the concrete value or host pair), so that one defect does
+// not fan out into dozens of keys while the evidence still shows that every
+// member of the space ran. (variant, sub) is unique per i < Variants;
+// phaseInvalid verifies that and declares the run inconclusive otherwise.
 type invalidClass struct {
-	Name  string
-	apply func(rng *rand.Rand, s *settingSet, i int) string
+	Name     string
+	Variants int
+	apply    func(rng *rand.Rand, s *settingSet, i int) (variant, sub string)
 }
 
 func delListeners(s *settingSet) {
@@ -25,167 +37,381 @@ func delProxies(s *settingSet) {
 	}
 }
 
+// absent makes setting name absent from the set in one of the two spellings of
+// "not given": omitted altogether, or given explicitly with the empty value.
+func absent(s *settingSet, name string, explicitEmpty bool) string {
+	if explicitEmpty {
+		s.set(name, "")
+		return name + "-empty"
+	}
+	s.del(name)
+	return name + "-omitted"
+}
+
+// dropUnbackedUnauthReads keeps a set whose authentication mechanism was just
+// removed from being refused for a second, unrelated reason.
+func dropUnbackedUnauthReads(s *settingSet) {
+	if v, _ := s.get("allow_unauthenticated_reads"); v != "true" {
+		return
+	}
+	ca, _ := s.get("tls_ca_file")
+	ht, _ := s.get("htpasswd_file")
+	if ca == "" && ht == "" && !s.hasPrefix("ldap.") {
+		s.del("allow_unauthenticated_reads")
+	}
+}
+
+// ---- enumerated value spaces
+
+var unknownStorageModes = []string{"lz4", "ZSTD", "zstd ", "compressed", "none", "gzip", "uncompressed2", ""}
+var unknownZstdImpls = []string{"rust", "Go", "c", "cgo2", "purego", "CGO", ""}
+var unknownAccessLogLevels = []string{"debug", "ALL", "verbose", "None", "info"}
+var unknownLogTimezones = []string{"PST", "utc", "Local", "Europe/Berlin", "GMT"}
+
+func valueName(v string) string {
+	if v == "" {
+		return "value=<empty>"
+	}
+	return "value=" + strings.ReplaceAll(v, " ", "<sp>")
+}
+
+// samePortHostPairs: host spellings of the two listeners: identical, or
+// different spellings that certainly overlap (wildcard vs specific, localhost
+// vs 127.0.0.1).
+var samePortHostPairs = [][2]string{{"", "localhost"}, {"", ""}, {"0.0.0.0", "127.0.0.1"}, {"127.0.0.1", "127.0.0.1"},
+	{"127.0.0.1", ""}, {"localhost", "127.0.0.1"}, {"0.0.0.0", ""}, {"localhost", "localhost"}}
+
+// samePortForms: how the two listeners are spelled. In the forms that give BOTH
+// spellings of one listener (address and deprecated port) the two spellings
+// name the same port, so the class membership does not depend on which of the
+// two takes precedence.
+var samePortForms = []string{
+	"address+address",                            // http_address, grpc_address
+	"port+grpc_port",                             // both deprecated; they share the host
+	"address+grpc_port",                          // http_address; host + grpc_port
+	"port+address",                               // host + port; grpc_address
+	"address&port+grpc_port",                     // http_address AND port (same port); host + grpc_port
+	"port+address&grpc_port",                     // host + port; grpc_address AND grpc_port (same port)
+	"address&port+address&grpc_port",             // every spelling at once, all naming one port
+	"empty-address&port+empty-address&grpc_port", // explicit empty addresses next to the deprecated ports
+}
+
+// samePortSharedHost: forms in which both listeners take the one deprecated
+// host setting; they are enumerated over single hosts, the others over pairs.
+var samePortSharedHost = map[string]bool{"port+grpc_port": true, "empty-address&port+empty-address&grpc_port": true}
+
+type samePortVariant struct {
+	form  string
+	hosts [2]string
+}
+
+var samePortVariants = func() []samePortVariant {
+	var out []samePortVariant
+	for _, f := range samePortForms {
+		if samePortSharedHost[f] {
+			for _, h := range []string{"", "0.0.0.0", "127.0.0.1", "localhost"} {
+				out = append(out, samePortVariant{f, [2]string{h, h}})
+			}
+			continue
+		}
+		for _, hp := range samePortHostPairs {
+			out = append(out, samePortVariant{f, hp})
+		}
+	}
+	return out
+}()
+
+// malformedShapes: listener address values that are not of the documented
+// shapes [host]:port / unix://path.
+var malformedShapes = []struct{ form, val string }{
+	{"host-without-port", "localhost"},
+	{"host-without-port", "127.0.0.1"},
+	{"host-without-port", "cache.example.com"},
+	{"host-without-port", "8080"},
+	{"unix-without-path", "unix://"},
+	{"too-many-colons", "127.0.0.1:%d:%d"},
+	// (":" — empty host and empty port — is NOT judged: it is of the documented [host]:port shape and
+	// means "any interface, system-chosen port"; whether that counts as malformed is not settled by the statement.)
+	{"empty-host-garbage-port", ":http:x"},
+}
+
+// proxyBackends in a fixed order; the class enumerates every subset of two or
+// more of them (10 pairs, 10 triples, 5 quadruples, all five).
+var proxyBackendNames = []string{"s3", "gcs", "http", "grpc", "azblob"}
+
+func genBackend(rng *rand.Rand, s *settingSet, name string) {
+	switch name {
+	case "s3":
+		genS3(rng, s)
+	case "gcs":
+		genGCS(rng, s)
+	case "http":
+		genURLProxy(rng, s, "http")
+	case "grpc":
+		genURLProxy(rng, s, "grpc")
+	case "azblob":
+		genAzblob(rng, s)
+		if !s.has("azblob.tenant_id") { // keep the azblob section unambiguous here
+			s.set("azblob.tenant_id", "tenant-"+word(rng, 6))
+		}
+	}
+}
+
+// proxySubsets: all subsets with >= 2 members, pairs first, then triples, …
+var proxySubsets = func() [][]string {
+	var out [][]string
+	n := len(proxyBackendNames)
+	for size := 2; size <= n; size++ {
+		for mask := 0; mask < 1<<n; mask++ {
+			var sub []string
+			for b := 0; b < n; b++ {
+				if mask&(1<<b) != 0 {
+					sub = append(sub, proxyBackendNames[b])
+				}
+			}
+			if len(sub) == size {
+				sort.Strings(sub)
+				out = append(out, sub)
+			}
+		}
+	}
+	return out
+}()
+
+var nonPositive = []string{"0", "-1", "random-negative", "-9223372036854775808"}
+
+func nonPositiveValue(rng *rand.Rand, i int) (val, sub string) {
+	k := nonPositive[i%len(nonPositive)]
+	if k == "random-negative" {
+		return strconv.FormatInt(-2-rng.Int64N(1<<40), 10), "value=" + k
+	}
+	return k, "value=" + k
+}
+
 var invalidClasses = []invalidClass{
-	{"missing-dir", func(rng *rand.Rand, s *settingSet, i int) string {
+	{"missing-dir", 2, func(rng *rand.Rand, s *settingSet, i int) (string, string) {
+		if i%2 == 1 {
+			s.set("dir", "")
+			return "explicit-empty", ""
+		}
 		s.del("dir")
-		return "omitted"
+		return "omitted", ""
 	}},
-	{"max_size-not-positive", func(rng *rand.Rand, s *settingSet, i int) string {
+	{"max_size-not-positive", 4, func(rng *rand.Rand, s *settingSet, i int) (string, string) {
 		s.del("max_size_hard_limit")
 		switch i % 4 {
 		case 0:
 			s.del("max_size")
-			return "omitted"
+			return "omitted", ""
 		case 1:
 			s.set("max_size", "0")
-			return "zero"
+			return "zero", ""
+		case 2:
+			s.set("max_size", "-1")
+			return "negative", "value=-1"
 		default:
-			s.set("max_size", strconv.Itoa(-1-rng.IntN(1000)))
-			return "negative"
+			s.set("max_size", strconv.Itoa(-2-rng.IntN(1000)))
+			return "negative", "value=random-negative"
 		}
 	}},
-	{"unknown-storage_mode", func(rng *rand.Rand, s *settingSet, i int) string {
-		s.set("storage_mode", pick(rng, "lz4", "ZSTD", "zstd ", "compressed", "none", "gzip", "uncompressed2"))
-		return "unknown"
+	{"unknown-storage_mode", len(unknownStorageModes), func(rng *rand.Rand, s *settingSet, i int) (string, string) {
+		v := unknownStorageModes[i%len(unknownStorageModes)]
+		s.set("storage_mode", v)
+		return "unknown", valueName(v)
 	}},
-	{"unknown-zstd_implementation", func(rng *rand.Rand, s *settingSet, i int) string {
-		s.set("zstd_implementation", pick(rng, "rust", "Go", "c", "cgo2", "purego", "CGO"))
-		return "unknown"
+	{"unknown-zstd_implementation", len(unknownZstdImpls), func(rng *rand.Rand, s *settingSet, i int) (string, string) {
+		v := unknownZstdImpls[i%len(unknownZstdImpls)]
+		s.set("zstd_implementation", v)
+		return "unknown", valueName(v)
 	}},
-	{"same-http-and-grpc-port", func(rng *rand.Rand, s *settingSet, i int) string {
+	{"same-http-and-grpc-port", len(samePortVariants), func(rng *rand.Rand, s *settingSet, i int) (string, string) {
 		delListeners(s)
 		p := port(rng)
-		// Host spellings of the two listeners: identical, or different spellings
-		// that certainly overlap (wildcard vs specific, localhost vs 127.0.0.1).
-		pairs := [][2]string{{"", "localhost"}, {"", ""}, {"0.0.0.0", "127.0.0.1"}, {"127.0.0.1", "127.0.0.1"},
-			{"127.0.0.1", ""}, {"localhost", "127.0.0.1"}, {"0.0.0.0", ""}, {"localhost", "localhost"}}
-		hp := pairs[(i/4)%len(pairs)]
+		ps := strconv.Itoa(p)
+		v := samePortVariants[i%len(samePortVariants)]
+		form, hp := v.form, v.hosts
 		hosts := "same-host"
 		if hp[0] != hp[1] {
 			hosts = "overlapping-hosts"
 		}
-		switch i % 4 {
-		case 0:
-			s.set("http_address", fmt.Sprintf("%s:%d", hp[0], p))
-			s.set("grpc_address", fmt.Sprintf("%s:%d", hp[1], p))
-			return "address+address/" + hosts
-		case 1: // both deprecated: they share the host by construction
-			if hp[0] != "" {
-				s.set("host", hp[0])
+		hname := func(h string) string {
+			if h == "" {
+				return "<any>"
 			}
-			s.set("port", strconv.Itoa(p))
-			s.set("grpc_port", strconv.Itoa(p))
-			return "port+grpc_port/same-host"
-		case 2: // address for HTTP, deprecated host + grpc_port for gRPC
-			s.set("http_address", fmt.Sprintf("%s:%d", hp[0], p))
-			if hp[1] != "" {
-				s.set("host", hp[1])
-			}
-			s.set("grpc_port", strconv.Itoa(p))
-			return "address+grpc_port/" + hosts
-		default: // deprecated host + port for HTTP, address for gRPC
-			if hp[0] != "" {
-				s.set("host", hp[0])
-			}
-			s.set("port", strconv.Itoa(p))
-			s.set("grpc_address", fmt.Sprintf("%s:%d", hp[1], p))
-			return "port+address/" + hosts
+			return h
 		}
+		sub := "hosts=" + hname(hp[0]) + "|" + hname(hp[1])
+		if samePortSharedHost[form] {
+			sub = "host=" + hname(hp[0])
+		}
+		setHost := func(h string) {
+			if h != "" {
+				s.set("host", h)
+			}
+		}
+		switch form {
+		case "address+address":
+			s.set("http_address", hp[0]+":"+ps)
+			s.set("grpc_address", hp[1]+":"+ps)
+		case "port+grpc_port": // both deprecated: they share the host by construction
+			setHost(hp[0])
+			s.set("port", ps)
+			s.set("grpc_port", ps)
+		case "address+grpc_port":
+			s.set("http_address", hp[0]+":"+ps)
+			setHost(hp[1])
+			s.set("grpc_port", ps)
+		case "port+address":
+			setHost(hp[0])
+			s.set("port", ps)
+			s.set("grpc_address", hp[1]+":"+ps)
+		case "address&port+grpc_port":
+			s.set("http_address", hp[0]+":"+ps)
+			s.set("port", ps)
+			setHost(hp[1])
+			s.set("grpc_port", ps)
+		case "port+address&grpc_port":
+			setHost(hp[0])
+			s.set("port", ps)
+			s.set("grpc_address", hp[1]+":"+ps)
+			s.set("grpc_port", ps)
+		case "address&port+address&grpc_port":
+			s.set("http_address", hp[0]+":"+ps)
+			s.set("port", ps)
+			setHost(hp[0])
+			s.set("grpc_address", hp[1]+":"+ps)
+			s.set("grpc_port", ps)
+		default: // explicit empty addresses: only the deprecated forms carry a value
+			s.set("http_address", "")
+			s.set("grpc_address", "")
+			setHost(hp[0])
+			s.set("port", ps)
+			s.set("grpc_port", ps)
+		}
+		return form + "/" + hosts, sub
 	}},
-	{"tls-cert-without-key", func(rng *rand.Rand, s *settingSet, i int) string {
+	// Half-specified TLS: of the three files (certificate, key, client CA) the
+	// valid subsets are {}, {cert,key} and {cert,key,ca}; the five others are
+	// enumerated by the next three classes, each with both spellings of "not
+	// given" for the missing files.
+	{"tls-cert-without-key", 4, func(rng *rand.Rand, s *settingSet, i int) (string, string) {
 		s.set("tls_cert_file", pathStr(rng, "cert"))
-		s.del("tls_key_file")
-		if chance(rng, 50) {
-			s.del("tls_ca_file")
+		sub := absent(s, "tls_key_file", i%2 == 1)
+		if (i/2)%2 == 1 {
+			s.set("tls_ca_file", pathStr(rng, "ca"))
+			return "cert+ca", sub
 		}
-		return "cert-only"
+		s.del("tls_ca_file")
+		dropUnbackedUnauthReads(s)
+		return "cert-only", sub
 	}},
-	{"tls-key-without-cert", func(rng *rand.Rand, s *settingSet, i int) string {
+	{"tls-key-without-cert", 4, func(rng *rand.Rand, s *settingSet, i int) (string, string) {
 		s.set("tls_key_file", pathStr(rng, "key"))
-		s.del("tls_cert_file")
-		if chance(rng, 50) {
-			s.del("tls_ca_file")
+		sub := absent(s, "tls_cert_file", i%2 == 1)
+		if (i/2)%2 == 1 {
+			s.set("tls_ca_file", pathStr(rng, "ca"))
+			return "key+ca", sub
 		}
-		return "key-only"
+		s.del("tls_ca_file")
+		dropUnbackedUnauthReads(s)
+		return "key-only", sub
 	}},
-	{"mtls-ca-without-server-cert", func(rng *rand.Rand, s *settingSet, i int) string {
+	{"mtls-ca-without-server-cert", 4, func(rng *rand.Rand, s *settingSet, i int) (string, string) {
 		s.set("tls_ca_file", pathStr(rng, "ca"))
-		s.del("tls_cert_file", "tls_key_file")
-		return "ca-only"
+		sub := absent(s, "tls_cert_file", i%2 == 1) + "," + absent(s, "tls_key_file", (i/2)%2 == 1)
+		return "ca-only", sub
 	}},
-	{"unauthenticated-reads-without-auth", func(rng *rand.Rand, s *settingSet, i int) string {
-		s.del("htpasswd_file", "tls_ca_file")
+	// Reads open to everyone although no authentication mechanism is configured:
+	// with and without (server-only) TLS, the absent mechanisms omitted or given
+	// as explicit empty values.
+	{"unauthenticated-reads-without-auth", 4, func(rng *rand.Rand, s *settingSet, i int) (string, string) {
 		s.delPrefix("ldap.")
+		s.del("htpasswd_file", "tls_ca_file")
+		sub := "auth-files-omitted"
+		if i%2 == 1 {
+			s.set("htpasswd_file", "")
+			s.set("tls_ca_file", "")
+			sub = "auth-files-empty"
+		}
 		s.set("allow_unauthenticated_reads", "true")
-		return "no-auth"
+		if (i/2)%2 == 1 {
+			s.set("tls_cert_file", pathStr(rng, "cert"))
+			s.set("tls_key_file", pathStr(rng, "key"))
+			return "no-auth/server-tls", sub
+		}
+		s.del("tls_cert_file", "tls_key_file")
+		return "no-auth/tls-off", sub
 	}},
-	{"multiple-proxy-backends", func(rng *rand.Rand, s *settingSet, i int) string {
+	{"multiple-proxy-backends", len(proxySubsets), func(rng *rand.Rand, s *settingSet, i int) (string, string) {
 		delProxies(s)
-		gens := []func(){
-			func() { genS3(rng, s) },
-			func() { genGCS(rng, s) },
-			func() { genURLProxy(rng, s, "http") },
-			func() { genURLProxy(rng, s, "grpc") },
-			func() {
-				genAzblob(rng, s)
-				if !s.has("azblob.tenant_id") { // keep the azblob section unambiguous here
-					s.set("azblob.tenant_id", "tenant-"+word(rng, 6))
-				}
-			},
+		sub := proxySubsets[i%len(proxySubsets)]
+		order := rng.Perm(len(sub))
+		for _, k := range order {
+			genBackend(rng, s, sub[k])
 		}
-		n := 2 + i%2
-		perm := rng.Perm(len(gens))
-		for _, g := range perm[:n] {
-			gens[g]()
-		}
-		return strconv.Itoa(n) + "-backends"
+		return strings.Join(sub, "+"), ""
 	}},
-	{"max_blob_size-not-positive", func(rng *rand.Rand, s *settingSet, i int) string {
-		s.set("max_blob_size", pick(rng, "0", "-1", strconv.FormatInt(-1-rng.Int64N(1<<40), 10)))
-		return "le-zero"
+	{"max_blob_size-not-positive", len(nonPositive), func(rng *rand.Rand, s *settingSet, i int) (string, string) {
+		v, sub := nonPositiveValue(rng, i)
+		s.set("max_blob_size", v)
+		return "le-zero", sub
 	}},
-	{"max_proxy_blob_size-not-positive", func(rng *rand.Rand, s *settingSet, i int) string {
-		s.set("max_proxy_blob_size", pick(rng, "0", "-1", strconv.FormatInt(-1-rng.Int64N(1<<40), 10)))
-		return "le-zero"
+	{"max_proxy_blob_size-not-positive", len(nonPositive), func(rng *rand.Rand, s *settingSet, i int) (string, string) {
+		v, sub := nonPositiveValue(rng, i)
+		s.set("max_proxy_blob_size", v)
+		return "le-zero", sub
 	}},
-	{"malformed-address", func(rng *rand.Rand, s *settingSet, i int) string {
-		// nine variants, cycled deterministically so that the quick tier covers all
-		which := []string{"http_address", "grpc_address", "http_address", "grpc_address", "http_address", "grpc_address", "http_address", "grpc_address", "profile_address"}[i%9]
-		var form, val string
-		if which == "profile_address" {
-			// Only the empty unix socket path: a profiling address without a port
-			// does make the server exit at start (it is not silently ignored),
-			// which the statement allows.
-			form, val = "unix-without-path", "unix://"
+	// Every malformed shape for each listener, alone and next to a well-formed
+	// deprecated host/port form of the same listener (the explicitly given
+	// malformed address must be refused, not silently replaced by the fallback).
+	{"malformed-address", 4*len(malformedShapes) + 2, func(rng *rand.Rand, s *settingSet, i int) (string, string) {
+		i %= 4*len(malformedShapes) + 2
+		if i >= 4*len(malformedShapes) {
+			// Profiling: only the empty unix socket path. A profiling address
+			// without a port does make the server exit at start (it is not silently
+			// ignored), which the statement allows.
 			s.del("profile_host", "profile_port")
-		} else {
-			switch (i % 9) / 2 {
-			case 0:
-				form, val = "host-without-port", pick(rng, "localhost", "127.0.0.1", "cache.example.com", "8080")
-			case 1:
-				form, val = "unix-without-path", "unix://"
-			case 2:
-				form, val = "too-many-colons", fmt.Sprintf("127.0.0.1:%d:%d", port(rng), port(rng))
-			default:
-				// (":" — empty host and empty port — is NOT judged: it is of the documented [host]:port shape and
-				// means "any interface, system-chosen port"; whether that counts as malformed is not settled by the statement.)
-				form, val = "empty-host-garbage-port", ":http:x"
+			s.set("profile_address", "unix://")
+			sub := "alone"
+			if i%2 == 1 {
+				s.set("profile_host", "127.0.0.1")
+				s.set("profile_port", strconv.Itoa(port(rng)))
+				sub = "with-deprecated-form"
 			}
-			if which == "http_address" {
-				s.del("host", "port")
-			} else {
-				s.del("grpc_port")
+			return "profile_address=unix-without-path", sub
+		}
+		which := []string{"http_address", "grpc_address"}[i%2]
+		companion := (i/2)%2 == 1
+		sh := malformedShapes[i/4]
+		val := sh.val
+		if strings.Contains(val, "%d") {
+			val = fmt.Sprintf(val, port(rng), port(rng))
+		}
+		sub := valueName(sh.val) + ",alone"
+		if which == "http_address" {
+			s.del("host", "port")
+			if companion {
+				s.set("port", strconv.Itoa(port(rng)))
+				sub = valueName(sh.val) + ",with-deprecated-form"
+			}
+		} else {
+			s.del("grpc_port")
+			if companion {
+				s.set("grpc_port", strconv.Itoa(port(rng)))
+				sub = valueName(sh.val) + ",with-deprecated-form"
 			}
 		}
 		s.set(which, val)
-		return which + "=" + form
+		return which + "=" + sh.form, sub
 	}},
-	{"unknown-log-setting", func(rng *rand.Rand, s *settingSet, i int) string {
-		if i%2 == 0 {
-			s.set("access_log_level", pick(rng, "debug", "ALL", "verbose", "None", "info"))
-			return "access_log_level"
+	{"unknown-log-setting", len(unknownAccessLogLevels) + len(unknownLogTimezones), func(rng *rand.Rand, s *settingSet, i int) (string, string) {
+		i %= len(unknownAccessLogLevels) + len(unknownLogTimezones)
+		if i < len(unknownAccessLogLevels) {
+			s.set("access_log_level", unknownAccessLogLevels[i])
+			return "access_log_level", valueName(unknownAccessLogLevels[i])
 		}
-		s.set("log_timezone", pick(rng, "PST", "utc", "Local", "Europe/Berlin", "GMT"))
-		return "log_timezone"
+		v := unknownLogTimezones[i-len(unknownAccessLogLevels)]
+		s.set("log_timezone", v)
+		return "log_timezone", valueName(v)
 	}},
 }
